@@ -68,8 +68,8 @@ Section Tracks.
     pose proof (tracks_save_push_again (ds s1) f (vapply v ps1) H1) as HH. rewrite E2 in HH. exact HH.
   Qed.
 
-  Lemma did_close_tracks s f v :
-    tracks (ds s) v -> tracks (ds (fst (did_close A fx s f))) (vapply v (snd (did_close A fx s f))).
+  Lemma did_close_tracks dk s f v :
+    tracks (ds s) v -> tracks (ds (fst (did_close A fx dk s f))) (vapply v (snd (did_close A fx dk s f))).
   Proof.
     intros H. unfold did_close.
     destruct (clear_change (ds s) f) as [d0 ps1] eqn:E1.
@@ -78,9 +78,16 @@ Section Tracks.
     set (d1 := unmark_clean d0 f) in *.
     assert (H2 : tracks d1 (vapply v (ps1 ++ (if fix12b fx then push_file_diag d1 f false else [])))).
     { rewrite vapply_app. destruct (fix12b fx); [apply tracks_push_file_diag_full; exact H1|exact H1]. }
-    destruct (in_dir A f); cbn [fst snd ds].
-    - exact H2.
-    - rewrite app_assoc, vapply_app. apply tracks_remove_saved. exact H2.
+    assert (H3 : tracks (remove_saved d1 f) (vapply v ((ps1 ++ (if fix12b fx then push_file_diag d1 f false else [])) ++ clear_one f))).
+    { rewrite vapply_app. apply tracks_remove_saved. exact H2. }
+    destruct (in_dir A f); cbn [fst snd ds]; [exact H2|].
+    destruct (fix_outside fx); cbn [fst snd ds]; [|rewrite app_assoc; exact H3].
+    set (p0 := set_lru A (pj s) (frem f (p_lru (pj s)))).
+    set (s2 := {| pj := p0; cache := adel (cache s) f; ds := remove_saved d1 f |}).
+    destruct (handle_events A fx dk p0 [(f, KDeleted)]) as [p1 chg]. destruct chg.
+    - pose proof (push_again_tracks s2 p1 _ H3) as HH. destruct (push_again A fx s2 p1) as [s3 ps3]. cbn [fst snd] in *.
+      rewrite <- vapply_app, <- !app_assoc in HH. exact HH.
+    - cbn [fst snd ds s2]. rewrite app_assoc. exact H3.
   Qed.
 
   Lemma clear_fold_tracks evs d ps v :
@@ -124,7 +131,7 @@ Section Tracks.
     - pose proof (did_open_tracks (disk w) (sv w) f t v H) as HH. destruct (did_open A fx (disk w) (sv w) f t). exact HH.
     - pose proof (did_change_tracks (sv w) f t v H) as HH. destruct (did_change A (sv w) f t). exact HH.
     - pose proof (did_save_tracks (disk w) (sv w) f t v H) as HH. destruct (did_save A fx (disk w) (sv w) f t). exact HH.
-    - pose proof (did_close_tracks (sv w) f v H) as HH. destruct (did_close A fx (sv w) f). exact HH.
+    - pose proof (did_close_tracks (disk w) (sv w) f v H) as HH. destruct (did_close A fx (disk w) (sv w) f). exact HH.
     - pose proof (did_watched_tracks (disk w) (sv w) l v H) as HH. destruct (did_watched A fx (disk w) (sv w) l). exact HH.
   Qed.
 
